@@ -314,6 +314,8 @@ def check(prog, rep, tier):
                         "the counter of run starts met by the scan does not move by exactly +1 at a slot whose continuation bit is clear (and only there): the run-boundary test is ineffective", cl.where())
                 okl = False
                 break
+    if okl and not seen:
+        rep.bad("C04.lookup-within-run", f"{CTX}._contained_at_loc", "never reports a hit", "the lookup has no path that returns the location of a stored element: every stored hash is reported absent", cl.where())
     if okl and seen:
         rep.ok("C04.lookup-within-run", f"{CTX}._contained_at_loc: hit only with is_occupied[q], starts != 2 established; starts += 1 exactly at run starts")
     rme = prog.method(CTX, "_remove_element")
@@ -347,6 +349,9 @@ def check(prog, rep, tier):
             break
     if oko and nsolo and nmulti:
         rep.ok("C04.run-emptied-clears-occupied", f"{CTX}._remove_element: {nsolo} exits of a run's last element clear occupied[q], {nmulti} other exits keep it")
+    elif oko and not nsolo:
+        rep.bad("C04.run-emptied-clears-occupied", f"{CTX}._remove_element", "the only-element-of-its-run case is not distinguished",
+                "no exit of _remove_element treats the removal of a run's only element specially: that quotient's occupied bit is never cleared", rme.where())
     elif oko:
         raise AnalysisError("C04: could not classify the exits of _remove_element by 'only element of its run'")
     # (d) resize / merge
